@@ -65,6 +65,12 @@ class RefBleAccessory:
         self.pairings_reply = None              # override for the pairings characteristic: list of TLV items
         self.timed = {}
         self.decrypt_errors = []
+        self.abort_fragments = {}               # "verify" | "setup" -> (fragments delivered before the abort, error reply items)
+        self.frag_sent = {}
+        self.aborted_steps = []
+        self.abort_only_stage = None
+        self.cur_stage = None
+        self.unauth_garbage = []                # writes on a link without a session that are not plaintext HAP requests
         self.verify_fault = None                # callable(stage, honest_items) -> items (C01/C04 at transport level)
         self.setup_handler = None               # callable(request TLV items) -> raw reply bytes for the pair-setup characteristic
         self.feature_flags = 0
@@ -92,6 +98,10 @@ class RefBleAccessory:
             if len(data) < 5:
                 raise BleakError("simulated accessory: short PDU")
             ctl, op, tid, iid = struct.unpack("<BBBH", data[:5])
+            if not secure and (ctl != 0x00 or not 1 <= op <= 8):
+                # on a link without a session only plaintext HAP requests make sense; this is neither (e.g. encrypted under keys of another session)
+                self.unauth_garbage.append((h.iid, data[:8]))
+                raise BleakError("simulated accessory: not a HAP request PDU")
             if ctl & 0x80:
                 raise BleakError("simulated accessory: continuation without a request")
             if len(data) > 5:
@@ -174,6 +184,7 @@ class RefBleAccessory:
             if self.setup_reply_pieces:
                 n = self.setup_reply_pieces
                 self.frag_buffer["setup"] = [raw[i:i + n] for i in range(0, len(raw), n)]
+                self.frag_sent["setup"] = 0
                 return 0, self._next_piece("setup")
             return 0, tlv_enc([(1, raw)])
         if h.kind == "features" and op == OP_READ:
@@ -218,6 +229,7 @@ class RefBleAccessory:
         if req == [(T_FRAGDATA, b"")]:                   # the controller acknowledges a fragment: send the next piece
             return 0, self._next_piece("verify")
         d = dict(req)
+        self.cur_stage = "m2" if d.get(T_STATE) == b"\x01" else "m4"
         if d.get(T_STATE) == b"\x01":
             self.eph += 1
             self.pv = RefPairVerify(self.ident, refhap.H(b"ble-eph", str(self.eph).encode(), self.ident.pairing_id)[:32])
@@ -237,11 +249,21 @@ class RefBleAccessory:
         if self.verify_reply_pieces:
             n = self.verify_reply_pieces
             self.frag_buffer["verify"] = [raw[i:i + n] for i in range(0, len(raw), n)]
+            self.frag_sent["verify"] = 0
             return 0, self._next_piece("verify")
         return 0, tlv_enc([(1, raw)])
 
     def _next_piece(self, key):
         pieces = self.frag_buffer.get(key) or [b""]
+        ab = self.abort_fragments.get(key)
+        if ab is not None and self.abort_only_stage in (None, self.cur_stage):
+            self.frag_sent[key] = self.frag_sent.get(key, 0) + 1
+            if self.frag_sent[key] > ab[0] and len(pieces) >= 1:
+                # instead of the next fragment the accessory gives up on the step with an ordinary (unfragmented) error reply
+                self.frag_buffer[key] = []
+                self.frag_sent[key] = 0
+                self.aborted_steps.append(key)
+                return tlv_enc([(1, tlv_enc(ab[1]))])
         p = pieces.pop(0)
         inner = tlv_enc([(T_FRAGLAST if not pieces else T_FRAGDATA, p)])
         return tlv_enc([(1, inner)])
@@ -287,6 +309,7 @@ class FakeBleClient:
         self.log = []                 # ("w"|"r", handle iid, bytes)
         self.gatt_error_at = None     # raise BleakError at the n-th GATT operation from now
         self.disconnect_delay = 0.0
+        self.disconnect_fails = False
         self.oversize = []
         self.ops = 0
         self.notify = {}
@@ -350,6 +373,11 @@ class FakeBleClient:
     async def disconnect(self):
         if not self.is_connected:
             return
+        if self.disconnect_fails:
+            # the stack itself is gone (dead D-Bus socket ...): the call fails and no disconnected callback is ever delivered
+            self.is_connected = False
+            self.acc.reset_link()
+            raise BleakError("simulated: disconnect failed")
         if self.disconnect_delay:
             await asyncio.sleep(self.disconnect_delay)      # a real disconnect takes a while; GATT operations in flight still complete
             if not self.is_connected:
